@@ -385,5 +385,54 @@ pub fn run(cases_path: &str, out_path: &str, tier: &str, seed: u64) {
             sink.put(rec("c05.api_header", json!({"n": n, "old_format": old_fmt}), r.is_ok(), "api_header", json!({"outcome": r.class(), "detail": r.detail()})));
         }
     }
+    // ---- objects modified through the public API: the announced length stays truthful and the value still round-trips
+    {
+        use pgp::packet::{Notation, PacketTrait, Subpacket, SubpacketData};
+        use pgp::types::PacketLength;
+        let k4 = gen_key(seed ^ 0x51, false, &Alg::Ed25519Legacy, None, "c05 history").expect("keygen");
+        let k6 = gen_key(seed ^ 0x52, true, &Alg::Ed25519, None, "c05 history v6").expect("keygen");
+        // notation value lengths around the subpacket length-encoding boundaries (1 / 2 / 5 octets) and the packet-length boundaries
+        let lens: [usize; 14] = [0, 1, 150, 177, 178, 179, 180, 300, 8000, 8200, 16300, 16306, 16307, 65000];
+        for (kn, k) in [("v4", &k4), ("v6", &k6)] {
+            for (i, &a) in lens.iter().enumerate() {
+                for &b in &[lens[(i + 5) % lens.len()], 3] {
+                    nontrivial.fetch_add(1, std::sync::atomic::Ordering::Relaxed);
+                    let r = guard(|| -> Result<(), String> {
+                        let e = |x: pgp::errors::Error| x.to_string();
+                        let ds = pgp::composed::DetachedSignature::sign_binary_data(rng(seed), &k.primary_key, &pgp::types::Password::empty(), pgp::crypto::hash::HashAlgorithm::Sha256, &b"x"[..]).map_err(e)?;
+                        let mut sig = ds.signature;
+                        let note = |n: usize| Subpacket::regular(SubpacketData::Notation(Notation { readable: true, name: "n".into(), value: vec![b'v'; n].into() })).map_err(e);
+                        let check = |sig: &pgp::packet::Signature, step: &str| -> Result<(), String> {
+                            let mut body = Vec::new();
+                            sig.to_writer(&mut body).map_err(e)?;
+                            if body.len() != sig.write_len() { return Err(format!("{step}: write_len {} but {} octets written", sig.write_len(), body.len())); }
+                            if body.len() <= u32::MAX as usize && sig.packet_header().packet_length() != PacketLength::Fixed(body.len() as u32) {
+                                return Err(format!("{step}: the packet header announces {:?}, the body is {} octets", sig.packet_header().packet_length(), body.len()));
+                            }
+                            let framed = Packet::from(sig.clone()).to_bytes().map_err(e)?;
+                            let (d, used) = deframe_one(&framed)?;
+                            if used != framed.len() || d.body != body { return Err(format!("{step}: framing is not truthful")); }
+                            match PacketParser::new(&framed[..]).next() {
+                                Some(Ok(p)) if p == Packet::from(sig.clone()) => Ok(()),
+                                Some(Ok(_)) => Err(format!("{step}: the written packet parses back to a different value")),
+                                other => Err(format!("{step}: the written packet does not parse back: {:?}", other.map(|x| x.map(|_| ()).map_err(|e| e.to_string())))),
+                            }
+                        };
+                        check(&sig, "as made")?;
+                        // a v4 unhashed area holds at most 65535 octets: larger insertions must be refused or stay consistent
+                        let r1 = sig.unhashed_subpacket_push(note(a)?);
+                        if r1.is_ok() { check(&sig, "after push")?; }
+                        let r2 = sig.unhashed_subpacket_insert(0, note(b)?);
+                        if r2.is_ok() { check(&sig, "after insert at 0")?; }
+                        if r2.is_ok() { sig.unhashed_subpacket_remove(0).map_err(e)?; check(&sig, "after remove")?; }
+                        sig.unhashed_subpackets_sort_by(|x, y| x.write_len().cmp(&y.write_len()));
+                        check(&sig, "after sort")?;
+                        Ok(())
+                    });
+                    sink.put(rec("c05.api_history", json!({"key": kn, "push": a, "insert": b}), r.is_ok(), "api_history", json!({"outcome": r.class(), "detail": r.detail()})));
+                }
+            }
+        }
+    }
     sink.finish(json!({"cells": cases.len(), "nontrivial": nontrivial.load(std::sync::atomic::Ordering::Relaxed)}));
 }
